@@ -56,6 +56,17 @@ def r1_who_may_exec(R) -> None:
                         ok = bool(vals) and all(v is not None and is_call(v, 'build_model_definition') for (_s, v) in vals)
                 R.check(ok, q, f'exec-arg:{text(arg) if arg is not None else "?"}', 'exec runs a class definition produced by build_model_definition',
                         f'`{text(n)[:60]}`: the executed text is not the result of build_model_definition()', where=where)
+                # the namespace that receives the bindings (`Model`, ...) is not the module's own: building a model has no
+                # side effect on fsic.parser's globals
+                node = [m for m in f.cfg.nodes if m.ast is not None and any(x is n for x in ast.walk(m.ast))]
+                sink = n.args[2] if len(n.args) >= 3 else (n.args[1] if len(n.args) == 2 else None)
+                if sink is None or not node:
+                    R.violation(q, 'exec-namespace:default', f'`{text(n)[:60]}` runs in the caller\'s own namespace', where=where)
+                else:
+                    sx = f.etext(node[0].id, sink)
+                    R.check(sx not in ('globals()', 'vars()', 'sys.modules[__name__].__dict__'), q, f'exec-namespace:{sx[:30]}',
+                            'the executed class definition binds its names in a scratch namespace',
+                            f'`{text(n)[:60]}` binds the names the definition creates (`Model`, ...) in `{sx}`: every build writes into the module\'s globals', where=where)
     # module level
     for stmt in R.repo.module(P).tree.body:
         if not isinstance(stmt, (ast.FunctionDef, ast.ClassDef)):
